@@ -124,6 +124,26 @@ def _open_harness(H, itemsize):
                       "post", "values are the file's prefix and no element lies beyond the file")
     S.explore(body)
     H.cover("open.pre", [z3.Int("nc") >= 1, z3.Int("nbytes") >= z3.Int("nc") * itemsize])
+    S2 = H.session(f"open.flat{itemsize}.size_cached_on_another_file")
+
+    def body2(it):
+        # a reader built on the compressed file and decompressed in place (or built with open=False on a file that was completed since): the size cached at
+        # construction is not the size of the file now opened, and disagrees with what the metadata announce - the sample count comes from the file as it is
+        obj, nbytes, nc, rate, ftsec = sym_reader(it, spikeglx.Reader, ".bin", itemsize)
+        c0 = z3.Int("bytes_cached_at_construction")
+        it.ctx.assume(c0 >= 0)
+        obj.attrs["nbytes"] = SV(c0)
+        ns0 = term(it.getattr(obj, "ns"))
+        it.ctx.assume(nc * ns0 * itemsize != c0)
+        H.input(nbytes=nbytes, nc=nc, fs=rate, fileTimeSecs=ftsec, bytes_cached_at_construction=c0)
+        run_function(it, spikeglx.Reader.open, [obj])
+        ns = term(it.getattr(obj, "ns"))
+        frame = nc * itemsize
+        it.ctx.oblige("open.stale_cache.ns_eq_floor", z3.And(ns * frame <= nbytes, nbytes < (ns + 1) * frame), "post",
+                      "exposed sample count == floor(bytes of the file being opened / frame), whatever size was cached when the reader was built")
+        raw = obj._raw
+        it.ctx.oblige("open.stale_cache.raw_shape", z3.And(z3.BoolVal(raw.ndim == 2), A.T(raw.shape[0]) == ns, A.T(raw.shape[1]) == nc), "post")
+    S2.explore(body2)
 
 
 @harness(PROPERTY, "open_int16", functions=["spikeglx:Reader.open", "spikeglx:Reader.ns", "spikeglx:Reader.rl", "spikeglx:Reader.shape", "spikeglx:Reader.fs", "spikeglx:Reader.nc"],
